@@ -30,6 +30,16 @@ import TinkVerif.Props.GlueTie.IdReq
 import TinkVerif.Props.GlueTie.StreamNew
 import TinkVerif.Props.GlueTie.HkdfPrf
 import TinkVerif.Props.GlueTie.HmacNew
+import TinkVerif.Props.GlueTie.Pss
+import TinkVerif.Props.GlueTie.KmsEnv
+import TinkVerif.Props.GlueTie.Ecies
+import TinkVerif.Props.GlueTie.DeriveKeyset
+import TinkVerif.Props.GlueTie.ManagerAdd
+import TinkVerif.Props.GlueTie.JwtKid
+import TinkVerif.Props.GlueTie.Prefixmap
+import TinkVerif.Props.GlueTie.HmacMac
+import TinkVerif.Props.GlueTie.PrfSet
+import TinkVerif.Props.GlueTie.KeyDerivers
 /-
   GlueTie: the small byte-level glue functions of tink-go (output prefixes, segment nonces, length blocks,
   counter / tag masks, AIV, CMAC doubling and padding, HPKE labels) are REGENERATED from /repo's current source
@@ -74,6 +84,8 @@ import TinkVerif.Props.GlueTie.HmacNew
     Props.GlueTie.FactoryMac        Gen/GlueFactoryMac    (C04 C05)           Model/Wrap `macAccept` (whole wrappedMAC.VerifyMAC / tryVerifyMAC / ComputeMAC)
     Props.GlueTie.FactoryVerify     Gen/GlueFactoryVerify (C03 C05)           Model/Wrap `accept` (whole wrappedVerifier.Verify)
     Props.GlueTie.FactoryHybrid     Gen/GlueFactoryHybrid (C05 C06)           Model/Wrap `candidates`, `accept` (whole wrappedHybridDecrypt.Decrypt)
+    Props.GlueTie.Prefixmap         Gen/GluePrefixmap (C02 C05)               internal/prefixmap Iterator.Next / PrimitivesMatchingPrefix / Insert: discharges the iterator contract
+                                                                              `IterSpec` of the Factory* ties; the built map = Model/Wrap `bucket`, the iteration = `candidates`
     Props.GlueTie.Jwt               Gen/GlueJwt      (C05 C09)                Model/Jwt `validate`, `validateHeader` (whole Validator.Validate, validateTimestamps with the
                                                                               clock as a parameter, validateTypeHeader/Issuer/Audiences, validateFieldPresence, validateHeader, validateKIDInHeader)
     Props.GlueTie.IdReq             Gen/GlueIdReq    (C11 C20)                Model/Manager `fromHandle`; KeySerialization / FallbackProtoKey IDRequirement, NewKeySerialization,
@@ -81,6 +93,15 @@ import TinkVerif.Props.GlueTie.HmacNew
     Props.GlueTie.StreamNew         Gen/GlueStreamNew (C07)                   streamingaead/subtle NewAESGCMHKDF / NewAESCTRHMAC: parameter checks and derived sizes (closed form)
     Props.GlueTie.HkdfPrf           Gen/GlueHkdfPrf  (C15)                    prf/subtle NewHKDFPRF / ValidateHKDFPRFParams (key and salt stored as given)
     Props.GlueTie.HmacNew           Gen/GlueHmacNew  (C01 C04)                internal/mac/hmac New / ValidateHMACParams (key stored as given)
+    Props.GlueTie.HmacMac           Gen/GlueHmacMac  (C01 C04)                internal/mac/hmac ComputeMAC / VerifyMAC (tag = truncated MAC of the concatenated parts, for every MAC object meeting `MacSpec`)
+    Props.GlueTie.JwtKid            Gen/GlueJwtKid   (C05 C09)                Model/Jwt `KeyCfg.customKid/tinkKid`: newFullVerifier / newFullSigner (kid strategies)
+    Props.GlueTie.ManagerAdd        Gen/GlueManagerAdd (C11 C20)              whole stateful Manager.Add (the drawn id stays reserved on failure), same newRandomKeyID as ManagerId
+    Props.GlueTie.DeriveKeyset      Gen/GlueDeriveKeyset (C17)                whole wrappedKeysetDeriver.DeriveKeyset loop (any failure aborts; no key dropped)
+    Props.GlueTie.KeyDerivers       Gen/GlueKeyDerivers (C17)                 the HMAC-PRF / HKDF-PRF key-deriver closures (exactly KeySizeInBytes bytes read; any read error fails)
+    Props.GlueTie.PrfSet            Gen/GluePrfSet   (C15)                    whole NewPRFSetWithConfig loop (a key whose primitive cannot be built fails the constructor; primary id)
+    Props.GlueTie.Pss               Gen/GluePss      (C03)                    New_RSA_SSA_PSS_Signer / _Verifier (salt length stored unchanged)
+    Props.GlueTie.Ecies             Gen/GlueEcies    (C06)                    NewECIESAEADHKDFHybridEncrypt / Decrypt (salt stored as given)
+    Props.GlueTie.KmsEnv            Gen/GlueKmsEnv   (C02)                    KMSEnvelopeAEAD.Decrypt / Encrypt (sticky error first), parseEnvelope
 
   This file only collects them (and repeats the axiom audit for every tie theorem).
 -/
